@@ -85,7 +85,9 @@ func (t *TargetsMetadata) AddRule(ruleName string, authorizedPrincipalIDs, ruleP
 		return tuf.ErrInvalidThreshold
 	}
 
-	if len(authorizedPrincipalIDs) < threshold {
+	// Count distinct principals: an ID listed twice is stored once and cannot
+	// contribute two signatures towards the threshold
+	if set.NewSetFromItems(authorizedPrincipalIDs...).Len() < threshold {
 		return tuf.ErrCannotMeetThreshold
 	}
 
@@ -124,7 +126,9 @@ func (t *TargetsMetadata) UpdateRule(ruleName string, authorizedPrincipalIDs, ru
 		return tuf.ErrInvalidThreshold
 	}
 
-	if len(authorizedPrincipalIDs) < threshold {
+	// Count distinct principals: an ID listed twice is stored once and cannot
+	// contribute two signatures towards the threshold
+	if set.NewSetFromItems(authorizedPrincipalIDs...).Len() < threshold {
 		return tuf.ErrCannotMeetThreshold
 	}
 
